@@ -3,6 +3,7 @@ a totally ordered log of atomic actions.  Everything here is harness-side: subcl
 CleanShutdownQueue and a wrapper around BaseEvent.event_result_update; no bubus source is changed.
 """
 import asyncio
+import contextvars
 import inspect
 import datetime as dt
 import signal
@@ -404,7 +405,7 @@ class TBus(EventBus):
                 b = RT.busidx[self]
                 e = eid(event)
                 k = RT.hidx.get((b, id(handler)), -1)
-                x = RT.act.get((b, e)) or ['?']
+                x = [EXECUTOR.get()] if EXECUTOR.get() is not None else (RT.act.get((b, e)) or ['?'])
                 RT.rec('hSkip', x=x[-1], b=b, e=e, h=k)
             raise
 
@@ -479,6 +480,9 @@ class TBus(EventBus):
         p = proc(self)
         e = eid(event)
         b = RT.busidx[self]
+        # which executor runs this activation: inherited by the handler tasks a parallel bus creates for it (two activations
+        # of one event on one bus can be open at the same time)
+        exec_token = EXECUTOR.set(p)
         RT.rec('peBegin', p=p, b=b, e=e)
         RT.act.setdefault((b, e), []).append(p)
         task = asyncio.current_task()
@@ -495,6 +499,10 @@ class TBus(EventBus):
                 RT.rec('peAbort', p=p, b=b, e=e, why=type(ex).__name__)
             raise
         finally:
+            try:
+                EXECUTOR.reset(exec_token)
+            except ValueError:
+                pass
             # (a coroutine of an earlier scenario finalised late must not touch this scenario's tables)
             if rt is RT:
                 rt.act[(b, e)].pop()
@@ -504,6 +512,7 @@ class TBus(EventBus):
 
 
 _orig_update = BaseEvent.event_result_update
+EXECUTOR = contextvars.ContextVar('verif_harness_executor', default=None)
 
 
 def traced_event_result_update(self, handler, eventbus=None, **kwargs):
@@ -527,7 +536,7 @@ def traced_event_result_update(self, handler, eventbus=None, **kwargs):
         RT.ninst += 1
         RT.pending_inst.setdefault((b, e, k), []).append(i)
         RT.last_inst[(b, e, k)] = i
-        x = RT.act.get((b, e)) or ['?']
+        x = [EXECUTOR.get()] if EXECUTOR.get() is not None else (RT.act.get((b, e)) or ['?'])
         if RT.hkind.get(k) == 'expect' and k not in RT.expect_dead:
             # the call's future was cancelled (deadline fired / caller cancelled) before its temporary handler runs:
             # reported at the moment it becomes observable
